@@ -508,6 +508,20 @@ func (I *skipInterp) literals(cond ssa.Value, taken bool, fr *frame, env *gEnv) 
 					continue
 				}
 			}
+			// the same loop counting down: left := bound; left > 0; left--
+			if k, isC := constInt(y); isC && k == 0 && (op == token.GTR || op == token.LEQ) {
+				if ph, ok := stripConv(x).(*ssa.Phi); ok {
+					if init := countdownInit(ph); init != nil {
+						bound := I.eval(init, fr, env)
+						if (op == token.GTR) == dc.Truth {
+							out = append(out, "iter:"+bound.String())
+						} else {
+							out = append(out, "done:"+bound.String())
+						}
+						continue
+					}
+				}
+			}
 			// loop continuation j < bound (or bound > j), with j a counter starting at 0 and stepping by 1
 			cnt, bnd := bo.X, bo.Y
 			cont := bo.Op == token.LSS
@@ -527,6 +541,24 @@ func (I *skipInterp) literals(cond ssa.Value, taken bool, fr *frame, env *gEnv) 
 		}
 	}
 	return out
+}
+
+// countdownInit: phi [init, phi−1] → init.
+func countdownInit(ph *ssa.Phi) ssa.Value {
+	if len(ph.Edges) != 2 {
+		return nil
+	}
+	for i := 0; i < 2; i++ {
+		bo, ok := ph.Edges[i].(*ssa.BinOp)
+		if !ok || bo.X != ssa.Value(ph) {
+			continue
+		}
+		k, isC := constInt(bo.Y)
+		if isC && ((bo.Op == token.SUB && k == 1) || (bo.Op == token.ADD && k == -1)) {
+			return ph.Edges[1-i]
+		}
+	}
+	return nil
 }
 
 // isCounter: phi [0, phi+1].
